@@ -3193,7 +3193,8 @@ class UTPM(Ring, RawAlgorithmsMixIn):
         colsums = numpy.array([ numpy.sum(cols[:c]) for c in range(0,Cb+1)],dtype=int)
 
         # create new matrix where the blocks will be copied into
-        tc = numpy.zeros((D, P, rowsums[-1],colsums[-1]))
+        dtype = numpy.result_type(*[in_X[r,c].data.dtype for r in range(Rb) for c in range(Cb)])
+        tc = numpy.zeros((D, P, rowsums[-1],colsums[-1]), dtype=dtype)
         for r in range(Rb):
             for c in range(Cb):
                 tc[:,:,rowsums[r]:rowsums[r+1], colsums[c]:colsums[c+1]] = in_X[r,c].data[:,:,:,:]
